@@ -147,6 +147,8 @@ def stmt(s, ind):
     if k == "ret":
         return f"{pad}return {expr(s['e'][0])}\n" if s["e"] else f"{pad}return \n"
     if k == "if":
+        if s.get("oneline"):       # `if c { stmt }` on one source line (single statement, no else)
+            return f"{pad}if {expr(s['c'])} {{ {stmt(s['t'][0], 0).strip()} }}\n"
         out = f"{pad}if {expr(s['c'])} {{\n" + block(s["t"], ind + 1) + f"{pad}}}"
         if s.get("haselse"):
             el = s["e"]
